@@ -607,12 +607,12 @@ example (β : Ks.R 1) :
 
 /-! ## Composed statements: result phase = product at the documented scale (modulo the C08 kernel relation) -/
 
-/-- **`mul_const_decrypts`** — `glwe_mul_const`, one statement in one value domain (`R N = ℤ[X]/(X^N+1)`, `β = 2^{base2k}`): `A·phase(result)`
+/-- **`mul_const_decrypts_modulo_norm`** — `glwe_mul_const`, one statement in one value domain (`R N = ℤ[X]/(X^N+1)`, `β = 2^{base2k}`): `A·phase(result)`
 plus `B·β^F·`(skipped top limbs, a multiple of the torus modulus) equals `B·β·val(phase a)·val(b)` plus the explicit normalisation error
 `E₀ + Σ s_i E_{i+1}`, where `(A, B, E)` is the value relation of the C08 kernel on each accumulator column (`hK`; for equal radices
 `C08.normalize_inter_value` discharges it with `A = 2^{…}`, `B = 2^{lo}`-type factors).  Composition of `mul_const_phase_value` and
 `mul_const_result_phase_modulo_norm` through `Lemmas/ValBridge.lean` (`ι ∘ valP ∘ phase` = weighted per-limb phases). -/
-theorem mul_const_decrypts {N : Nat} (hN : 0 < N) (big128 : Bool) (rb rs off b sa : Nat) (a0 : Col) (as : List Col) (cst : List Int)
+theorem mul_const_decrypts_modulo_norm {N : Nat} (hN : 0 < N) (big128 : Bool) (rb rs off b sa : Nat) (a0 : Col) (as : List Col) (cst : List Int)
     (res : List Col) (h : mulConst false big128 N rb rs off b (a0 :: as) cst = some res)
     (h0 : a0.length = sa) (hall : ∀ x ∈ as, x.length = sa) (hx0 : ∀ l ∈ a0, l.length = N) (hxs : ∀ x ∈ as, ∀ l ∈ x, l.length = N)
     (hsa : 1 ≤ sa) (hsb : 1 ≤ cst.length) (hhi : (cnvOffsetSplit b off).1 ≤ sa + cst.length - 1)
@@ -669,7 +669,7 @@ example (s : List Poly) :
       = ((1 : Int) : Ks.R 1) * ((2 : Ks.R 1) ^ 4 * (colVal 1 ((2 : Ks.R 1) ^ 4) [[3], [0]]
           + ∑ i ∈ Finset.range (min s.length [([[1], [0]] : Col)].length), Ks.ι 1 (s.getD i []) * colVal 1 ((2 : Ks.R 1) ^ 4) (([[[1], [0]]] : List Col).getD i [])) * constVal 1 ((2 : Ks.R 1) ^ 4) [2])
         + Ks.ι 1 (C02L.errTo (min [([[1], [0]] : Col)].length s.length) s (fun _ => [0])) :=
-  mul_const_decrypts (N := 1) (by decide) false 4 2 4 4 2 [[3], [0]] [[[1], [0]]] [2] [[[6], [0]], [[2], [0]]]
+  mul_const_decrypts_modulo_norm (N := 1) (by decide) false 4 2 4 4 2 [[3], [0]] [[[1], [0]]] [2] [[[6], [0]], [[2], [0]]]
     (by decide) rfl (by decide) (by decide) (by decide) (by decide) (by decide) (by decide) (by decide) 16 1 (fun _ => [0]) (fun _ => rfl)
     (by
       intro i hi C hC
@@ -681,10 +681,10 @@ example (s : List Poly) :
       · have e : bigNormalizeOff false 1 4 2 (cnvOffsetSplit 4 4).2 (((([[3], [0]] : Col) :: [[[1], [0]]]).map (fun x => Core.cnvByConstCol 1
             (2 + [(2 : Int)].length - (cnvOffsetSplit 4 4).1) (cnvOffsetSplit 4 4).1 x [2])).getD 1 []) 4 = some [[2], [0]] := by decide
         have hC' := e.symm.trans hC; injection hC' with hC'; subst hC'; decide) s
-/-- **`mul_const_assign_decrypts`** — `glwe_mul_const_assign` (accumulator of `res.size = rs` limbs), composed: the result phase, rescaled by
+/-- **`mul_const_assign_decrypts_modulo_norm`** — `glwe_mul_const_assign` (accumulator of `res.size = rs` limbs), composed: the result phase, rescaled by
 `β^{F−rs}`, plus `B·`(the explicit dropped limbs `rs ≤ k < F` of the full convolution + `β^F·`top limbs) is `B·β·val(phase a)·val(b)` plus the rescaled
 normalisation error. -/
-theorem mul_const_assign_decrypts {N : Nat} (hN : 0 < N) (big128 : Bool) (rb rs off b sa : Nat) (a0 : Col) (as : List Col) (cst : List Int)
+theorem mul_const_assign_decrypts_modulo_norm {N : Nat} (hN : 0 < N) (big128 : Bool) (rb rs off b sa : Nat) (a0 : Col) (as : List Col) (cst : List Int)
     (res : List Col) (h : mulConst true big128 N rb rs off b (a0 :: as) cst = some res)
     (h0 : a0.length = sa) (hall : ∀ x ∈ as, x.length = sa) (hx0 : ∀ l ∈ a0, l.length = N) (hxs : ∀ x ∈ as, ∀ l ∈ x, l.length = N)
     (hsa : 1 ≤ sa) (hsb : 1 ≤ cst.length) (hhi : (cnvOffsetSplit b off).1 ≤ sa + cst.length - 1)
@@ -744,7 +744,7 @@ example (s : List Poly) :
       = ((1 : Int) : Ks.R 1) * ((2 : Ks.R 1) ^ 4 * (colVal 1 ((2 : Ks.R 1) ^ 4) [[3], [0]]
           + ∑ i ∈ Finset.range (min s.length [([[1], [0]] : Col)].length), Ks.ι 1 (s.getD i []) * colVal 1 ((2 : Ks.R 1) ^ 4) (([[[1], [0]]] : List Col).getD i [])) * constVal 1 ((2 : Ks.R 1) ^ 4) [2])
         + ((2 : Ks.R 1) ^ 4) ^ (2 + [(2 : Int)].length - (cnvOffsetSplit 4 4).1 - 2) * Ks.ι 1 (C02L.errTo (min [([[1], [0]] : Col)].length s.length) s (fun _ => [0])) :=
-  mul_const_assign_decrypts (N := 1) (by decide) false 4 2 4 4 2 [[3], [0]] [[[1], [0]]] [2] [[[6], [0]], [[2], [0]]]
+  mul_const_assign_decrypts_modulo_norm (N := 1) (by decide) false 4 2 4 4 2 [[3], [0]] [[[1], [0]]] [2] [[[6], [0]], [[2], [0]]]
     (by decide) rfl (by decide) (by decide) (by decide) (by decide) (by decide) (by decide) (by decide) (by decide) 1 1 (fun _ => [0]) (fun _ => rfl)
     (by
       intro i hi C hC
@@ -756,9 +756,9 @@ example (s : List Poly) :
       · have e : bigNormalizeOff false 1 4 2 (cnvOffsetSplit 4 4).2 (((([[3], [0]] : Col) :: [[[1], [0]]]).map (fun x => Core.cnvByConstCol 1
             2 (cnvOffsetSplit 4 4).1 x [2])).getD 1 []) 4 = some [[2], [0]] := by decide
         have hC' := e.symm.trans hC; injection hC' with hC'; subst hC'; decide) s
-/-- **`mul_plain_decrypts`** — `glwe_mul_plain`, same composed statement: the operands entering the value are the masked ones
+/-- **`mul_plain_decrypts_modulo_norm`** — `glwe_mul_plain`, same composed statement: the operands entering the value are the masked ones
 (`cnv_prepare_left/right`, `mask_keeps_top_bits`). -/
-theorem mul_plain_decrypts {N : Nat} (hN : 0 < N) (big128 : Bool) (rb rs off b sa : Nat) (a0 : Col) (as : List Col) (aK : Nat) (pt : Col) (bK : Nat)
+theorem mul_plain_decrypts_modulo_norm {N : Nat} (hN : 0 < N) (big128 : Bool) (rb rs off b sa : Nat) (a0 : Col) (as : List Col) (aK : Nat) (pt : Col) (bK : Nat)
     (res : List Col) (h : mulPlain big128 N rb rs off b (a0 :: as) aK pt bK = some res)
     (h0 : a0.length = sa) (hall : ∀ x ∈ as, x.length = sa) (hx0 : ∀ l ∈ a0, l.length = N) (hxs : ∀ x ∈ as, ∀ l ∈ x, l.length = N)
     (hpt : ∀ l ∈ pt, l.length = N) (hsa : 1 ≤ sa) (hsb : 1 ≤ pt.length) (hhi : (cnvOffsetSplit b off).1 ≤ sa + pt.length - 1)
@@ -845,7 +845,7 @@ example (s : List Poly) :
               colVal 1 ((2 : Ks.R 1) ^ 4) ((prepAll 1 (msbMaskBottomLimb 4 8) [[[1], [0]]]).getD i []))
             * colVal 1 ((2 : Ks.R 1) ^ 4) (Hal.cnvPrepareCol 1 ([[2]] : Col).length (msbMaskBottomLimb 4 4) [[2]]))
         + Ks.ι 1 (C02L.errTo (min [([[1], [0]] : Col)].length s.length) s (fun _ => [0])) :=
-  mul_plain_decrypts (N := 1) (by decide) false 4 2 4 4 2 [[3], [0]] [[[1], [0]]] 8 [[2]] 4 [[[6], [0]], [[2], [0]]]
+  mul_plain_decrypts_modulo_norm (N := 1) (by decide) false 4 2 4 4 2 [[3], [0]] [[[1], [0]]] 8 [[2]] 4 [[[6], [0]], [[2], [0]]]
     (by decide) rfl (by decide) (by decide) (by decide) (by decide) (by decide) (by decide) (by decide) (by decide) 16 1 (fun _ => [0]) (fun _ => rfl)
     (by
       intro i hi C hC
@@ -867,12 +867,12 @@ def relinInput (n : Nat) (a : List Col) (g : GGLWE) : List Col :=
   (List.range g.colsIn).map (fun i =>
     Hal.dftApplyCol n 1 0 (((a.getD 0 []).length * g.base2k + g.base2k - 1) / g.base2k) (a.getD (g.colsOut + i) []))
 
-/-- **`relin_decrypts`** — `glwe_tensor_relinearize` with the tensor in the key radix, i64 accumulator (FFT64), every key digit size: one
+/-- **`relin_decrypts_modulo_norm`** — `glwe_tensor_relinearize` with the tensor in the key radix, i64 accumulator (FFT64), every key digit size: one
 composed statement.  `A·phase(res) = B·(Σ_p σ_p·usedVal(a_p) + Σ_p(Σ_r digit·E − dropped − β^S·head) + phase(first columns of the tensor at S limbs))
 + (E₀ + Σ s_i E_{i+1})`: the pair columns are re-encrypted under `s` by the gadget product (`relin_product_value`), the first `rank+1` columns are
 added exactly (`Core.bigAddSmallAssign_exact`, 2^62 head-room), and the final normalisation contributes the kernel relation `(A, B, En)`
 (`Core.acc_norm_compose`, `Lemmas/AccAdd.lean`).  With `σ_p = s_i·s_j` this is `tensor_phase` evaluated under `s`. -/
-theorem relin_decrypts {N : Nat} (rb rs : Nat) (a : List Col) (g : GGLWE) (res0 res : List Col) (sk : List Poly)
+theorem relin_decrypts_modulo_norm {N : Nat} (rb rs : Nat) (a : List Col) (g : GGLWE) (res0 res : List Col) (sk : List Poly)
     (hok : relinearize false N rb rs a g.base2k g g.size res0 = some res)
     (A B : Int) (En : Nat → Poly) (hEn : ∀ i, (En i).length = N)
     (hPwf : ∀ c ∈ Core.gglweProductDft (relinInput N a g) g g.size res0, C02L.ColWF N g.size c)
@@ -941,7 +941,7 @@ example (σ : ℕ → Ks.R 1) :
           + Ks.ι 1 (C02L.valP exTsk.base2k 1 (Core.Ops.phase [[1]] (Ks.mkCt exTsk.base2k 1
               ((List.range exTsk.colsOut).map (fun j => C02L.fit 1 exTsk.size (([[[1], [0]], [[0], [1]], [[2], [1]]] : List Col).getD j [])))))))
         + Ks.ι 1 (C02L.errTo (min (exTsk.colsOut - 1) ([[1]] : List Poly).length) [[1]] (fun _ => [0])) :=
-  relin_decrypts (N := 1) 4 3 ([[[1], [0]], [[0], [1]], [[2], [1]]] : List Col) exTsk (zeroCols 1 2 3) [[[2], [0], [0]], [[2], [2], [0]]] [[1]]
+  relin_decrypts_modulo_norm (N := 1) 4 3 ([[[1], [0]], [[0], [1]], [[2], [1]]] : List Col) exTsk (zeroCols 1 2 3) [[[2], [0], [0]], [[2], [2], [0]]] [[1]]
     (by decide +kernel) 1 1 (fun _ => [0]) (fun _ => rfl)
     (by decide +kernel) (by decide +kernel) (by decide) (by decide) (by decide)
     (by
